@@ -27,6 +27,13 @@ def roots_of(schema):
 
 
 def run(c):
+    import time
+    T = [time.time()]
+    ph = {}
+
+    def mark(name):
+        ph[name] = round(time.time() - T[0], 1)
+        T[0] = time.time()
     c.lean(MODULES, THEOREMS, sources=["TLVerif.Lint.Ast", "TLVerif.Lint.Core", "TLVerif.Lint.Spec", "TLVerif.Lint.Wire",
                                        "TLVerif.Lint.WireLemmas", "TLVerif.Lint.Examples", "TLVerif.Lint.Driver"])
     model = c.model_exe()
@@ -39,6 +46,7 @@ def run(c):
                       "schema uses; sizes 0..3)",
                       "wireCompat covers appended fields guarded by local # fields only; pairs using template-argument masks are "
                       "explored (bytes), not certified"]
+    mark('build')
     cases = []
     if c.replay:
         for f in c.replay.get("failures", []):
@@ -54,7 +62,8 @@ def run(c):
     samples, proto = L.sample_lines(impl)
     for ln, exp, f in samples:
         cases.append((ln, "sample-" + exp, {"file": f}))
-    cases += L.build_cases(c, impl, 400 if c.thorough else 40)
+    cases += L.build_cases(c, impl, 400 if c.thorough else 30)
+    mark('generate')
     # 1. verdicts (model vs code)
     res = c.tie("verdict", [l for l, _, _ in cases], impl, model)
     accepted = []
@@ -62,14 +71,16 @@ def run(c):
         c.count("kind:%s:%s" % (kind, a))
         if a == "acc":
             accepted.append((l, kind, meta))
+    mark('verdict-tie')
     # 2. T3 certificates: wireCompat evaluated by the model on every accepted pair
     comp_lines = [l.replace("lint.check ", "lint.compat ", 1) for l, _, _ in accepted]
     comp = run_lines(model, comp_lines)
     # 3. which schemas does the kernel accept (needed for the implementation-side wire oracle)
     schemas = sorted(set(x for l, _, _ in accepted for x in l.split(" ")[1:3]))
     kern = dict(zip(schemas, run_lines(impl, ["lint.kernel " + x for x in schemas])))
+    mark('compat+kernel')
     # 4. old values -> bytes (model), then both sides on the bytes
-    nseeds = 6 if c.thorough else 3
+    nseeds = 5 if c.thorough else 2
     gen_lines, owner = [], []
     for idx, (l, kind, meta) in enumerate(accepted):
         o, n = l.split(" ")[1:3]
@@ -78,7 +89,7 @@ def run(c):
             continue
         roots = roots_of(L.dec(o))
         c.rng.shuffle(roots)
-        for r in roots[:(8 if kind in ("witness", "sample-acc") else 4)]:
+        for r in roots[:(8 if kind in ("witness", "sample-acc") else 3)]:
             for sd in range(nseeds):
                 gen_lines.append("lint.wire %s %s %s %d ? s" % (o, n, r, c.rng.below(1 << 30)))
                 owner.append(idx)
@@ -93,7 +104,9 @@ def run(c):
             mdiff[wl] = p[2] != p[1]
         else:
             c.count("wire:model-" + g.split(" ")[0])
+    mark('model-gen')
     wres = c.tie("wire", wire_lines, impl, model, canon=lambda x: " ".join(x.split(" ")[:2]))
+    mark('wire-tie')
     impl_diff = {}   # pair index -> first wire line on which the implementation does not reproduce the bytes
     model_diff = {}
     for (wl, a, b), idx in zip(wres, wowner):
@@ -137,6 +150,7 @@ def run(c):
                               "the kernel refuses one of the schemas) (%s)" % meta["name"], model_diff[idx])
             elif not wc:
                 c.oracle_fail(cl, "accepted by the linter although not wire compatible (%s)" % meta["name"], cl)
+    c.extra["phase_seconds"] = ph
     c.extra["programs"] = programs
     c.extra["certificates_evaluated"] = len(comp)
     c.extra["rule"] = ("pairs: repository samples, witnesses of the known defects, random base schemas x {identity, safe sequences, single "
